@@ -5,7 +5,6 @@ import sys
 from tools import partition as P
 from tools import vlib
 
-FINDING_ENEMY = "panic/enemy-self-pair"
 FINDING_ACCESS = "panic/access-group-self-conflict"
 
 
@@ -29,7 +28,7 @@ class C19(vlib.Spec):
     model_vo = ["theories/Partition/Model.vo", "theories/Gen/OpsTable.vo"]
     props_vo = "theories/Props/C19.vo"
     theorems = ["C19_reported_cycle_is_real", "C19_rejects_iff_cycle", "C19_acyclic_accepted", "C19_oracle_correct",
-                "C19_refuted_delayed_self_loop", "C19_refuted_access_conflict"]
+                "C19_refuted_access_conflict"]
     crate, group, binary = "h_partition", "dfir", "h_partition"
     imports = ("From Coq Require Import List String NArith.\n"
                "From HV Require Import Partition.Base Partition.Model Gen.OpsTable.\n"
@@ -71,8 +70,6 @@ class C19(vlib.Spec):
     def finding_key(self, case, res):
         if isinstance(res, dict) and "part" in res:
             _, k = impl_res(res["part"])
-            if k == "panic-enemy":
-                return FINDING_ENEMY
             if k == "panic-access":
                 return FINDING_ACCESS
         return None
